@@ -298,8 +298,12 @@ Definition do_code_process (c : cfg) (s : st) (cl : pystr) (code : nat) (redir :
                  else
                    match mint s gi Access (Some code) None None None (c_access_exp c) with
                    | Err (Refused _) =>
-                       (* MintingNotAllowed is swallowed; `token` stays unbound *)
-                       if want_refresh || want_idt then (s, OExc)          (* UnboundLocalError *)
+                       (* grant.mint_token raises idpyoidc.server.session.MintingNotAllowed.  The OAuth2 helper
+                          catches that class and swallows it (`token` stays unbound); the OIDC helper catches the
+                          different class idpyoidc.server.session.token.MintingNotAllowed, so the exception reaches
+                          Token.process_request, which answers invalid_request *)
+                       if c_oidc c then (s, OErr EInvalidRequest)
+                       else if want_refresh || want_idt then (s, OExc)     (* UnboundLocalError *)
                        else (upd_tok code (add_used 1) s, OExc)            (* register_usage, then KeyError *)
                    | Err _ => (s, OExc)
                    | Unmodelled => (s, OExc)
@@ -309,7 +313,8 @@ Definition do_code_process (c : cfg) (s : st) (cl : pystr) (code : nat) (redir :
                                    match mint (upd_tok code (add_used (-1)) s1) gi Refresh (Some code) None None
                                               (Some (c_refresh_mints c)) (c_refresh_exp c) with
                                    | Ok (s2, rid) => Ok (s2, Some rid)
-                                   | Err (Refused _) => Ok (upd_tok code (add_used (-1)) s1, None)
+                                   | Err (Refused n) => if c_oidc c then Err (Refused n)
+                                                        else Ok (upd_tok code (add_used (-1)) s1, None)
                                    | Err e => Err e
                                    | Unmodelled => Unmodelled
                                    end
@@ -326,8 +331,10 @@ Definition do_code_process (c : cfg) (s : st) (cl : pystr) (code : nat) (redir :
                                      else Ok (s2, None) in
                            match r3 with
                            | Ok (s3, iid) => (upd_tok code (add_used 1) s3, OTokens (Some acc) rid iid (g_scope g))
+                           | Err (Refused _) => (upd_tok code (add_used (-1)) s2, OErr EInvalidRequest)
                            | _ => (s2, OExc)
                            end
+                       | Err (Refused _) => (upd_tok code (add_used (-1)) s1, OErr EInvalidRequest)
                        | _ => (s1, OExc)
                        end
                    end
